@@ -187,7 +187,7 @@ fn gen_hval(rng: &mut Rng) -> Vec<u8> {
 
 pub fn gen_steps(rng: &mut Rng, max: usize, framing_headers: bool) -> Vec<Step> {
     let n = rng.below(max as u64 + 1) as usize;
-    let names = ["x-a", "X-B", "x-a", "Accept", "User-Agent", "Content-Type", "Authorization", "Accept-Encoding", "X-Long-Header-Name", "connection", "Cookie"];
+    let names = ["x-a", "X-B", "x-a", "Accept", "User-Agent", "Content-Type", "Authorization", "Accept-Encoding", "X-Long-Header-Name", "connection", "Cookie", "Host"];
     (0..n)
         .map(|_| match rng.below(if framing_headers { 12 } else { 10 }) {
             0 => Step::Basic(gen_string(rng, 8).replace(':', ""), if rng.chance(1, 3) { None } else { Some(gen_string(rng, 8)) }),
@@ -282,7 +282,9 @@ pub fn generate(seed: u64, tier: &str, sink: &mut Sink) {
         let path: String = format!("/{}", gen_string(&mut rng, 12).replace(['#', '?'], ""));
         let base_q = if rng.chance(1, 3) { format!("?{}", rng.pick(&["a=1", "a=1&b=2", "x"])) } else { String::new() };
         let port = rng.pick(&["", ":80", ":8080"]).to_string();
-        let url = format!("http://verif.test{}{}{}", port, path, base_q);
+        // a fragment is not part of the request target (and must not disturb the query pairs added with param())
+        let frag = if rng.chance(1, 4) { rng.pick(&["#sec-2", "#", "#a?b=c&d", "#/x/y"]).to_string() } else { String::new() };
+        let url = format!("http://verif.test{}{}{}{}", port, path, base_q, frag);
         let params: Vec<(String, String)> = (0..rng.below(4)).map(|_| (gen_string(&mut rng, 6), gen_string(&mut rng, 8))).collect();
         let body = gen_body(&mut rng);
         let case = SendCase {
@@ -328,6 +330,7 @@ pub fn generate(seed: u64, tier: &str, sink: &mut Sink) {
                 format!("body={}", tag),
                 format!("method={}", case.method),
                 format!("params={}", case.params.len()),
+                format!("fragment={}", case.url.contains('#')),
                 format!("steps={}", case.pre.len() + case.post.len()),
                 format!("empty-write={}", matches!(&case.body, BodyR::Custom { writes, .. } if writes.iter().any(|w| w.is_empty()))),
                 format!("caller-framing-header={}", case.pre.iter().chain(case.post.iter()).any(|s| matches!(s, Step::Header(n, _) if n.eq_ignore_ascii_case("content-length") || n.eq_ignore_ascii_case("transfer-encoding")))),
